@@ -56,7 +56,7 @@ Fresh(sh) ==
     CASE sh.k = "TS"  -> [ok |-> FALSE, v |-> 0, w |-> 0, inv |-> 0]
       [] sh.k = "TSS" -> [ok |-> FALSE, v |-> {}, w |-> 0, inv |-> 0]
       [] sh.k = "TSW" -> [ok |-> FALSE, q |-> <<>>, w |-> 0, inv |-> 0]
-      [] sh.k = "TSD" -> [ok |-> FALSE, ch |-> EmptyFn, grave |-> EmptyFn, pub |-> {}, gpub |-> {}, w |-> 0, soft |-> 0]
+      [] sh.k = "TSD" -> [ok |-> FALSE, ch |-> EmptyFn, grave |-> EmptyFn, pub |-> {}, gpub |-> {}, w |-> 0, soft |-> 0, kw |-> 0]
       [] OTHER        -> [ok |-> FALSE, ch |-> [i \in 1..NCh(sh) |-> Fresh(ChSh(sh, i))], w |-> 0, soft |-> 0, inv |-> 0,
                           sz |-> IF IsDyn(sh) THEN 0 ELSE NCh(sh)]
 
@@ -102,17 +102,19 @@ Leaf(sh, st, op, t) ==
       [] op.op = "add"   -> W([st EXCEPT !.ok = TRUE, !.v = @ \cup {a}, !.w = t])
       [] op.op = "rem"   -> W([st EXCEPT !.ok = TRUE, !.v = @ \ {a}, !.w = t])
       [] op.op = "clr" /\ sh.k = "TSS" -> W([st EXCEPT !.ok = TRUE, !.v = {}, !.w = t])
+      [] op.op = "touch" /\ sh.k = "TSD" -> W([st EXCEPT !.ok = TRUE, !.w = t, !.kw = IF @ = 0 THEN t ELSE @])
       [] op.op = "touch" -> W([st EXCEPT !.ok = TRUE, !.w = t])
       [] op.op = "clr" /\ sh.k = "TSD" ->
              W([st EXCEPT !.ok = TRUE, !.w = t, !.ch = EmptyFn, !.pub = {}, !.gpub = @ \cup st.pub,
+                          !.kw = IF DOMAIN st.ch # {} THEN t ELSE @,
                           !.grave = [x \in DOMAIN st.grave \cup DOMAIN st.ch |-> IF x \in DOMAIN st.ch THEN st.ch[x] ELSE st.grave[x]]])
       [] op.op = "del"   -> IF a \in DOMAIN st.ch
-                            THEN W([st EXCEPT !.ok = TRUE, !.w = t, !.ch = Drop(@, a), !.grave = Put(@, a, st.ch[a]), !.pub = @ \ {a},
+                            THEN W([st EXCEPT !.ok = TRUE, !.w = t, !.kw = t, !.ch = Drop(@, a), !.grave = Put(@, a, st.ch[a]), !.pub = @ \ {a},
                                                 !.gpub = IF a \in st.pub THEN @ \cup {a} ELSE @])
                             ELSE W([st EXCEPT !.ok = TRUE, !.w = t])
       [] op.op = "new"   -> IF a \in DOMAIN st.ch THEN [st |-> st, wr |-> FALSE, sf |-> FALSE]
                             ELSE LET c == IF a \in DOMAIN st.grave THEN st.grave[a] ELSE Fresh(sh.el)
-                                 IN  W([st EXCEPT !.ok = TRUE, !.w = t, !.grave = Drop(@, a), !.ch = Put(@, a, c),
+                                 IN  W([st EXCEPT !.ok = TRUE, !.w = t, !.kw = t, !.grave = Drop(@, a), !.ch = Put(@, a, c),
                                                   \* a resurrected key is a member again if it was one when it was erased
                                                   !.pub = IF a \in st.gpub \/ HasValue(sh.el, ValOf(sh.el, c)) THEN @ \cup {a} ELSE @,
                                                   !.gpub = @ \ {a}])
@@ -129,6 +131,7 @@ ApplyAt(sh, st, path, op, t) ==
               IN  [st |-> [st EXCEPT !.ch = Put(@, p, r.st), !.grave = Drop(@, p), !.ok = @ \/ wr,
                                      !.pub = IF (~live /\ p \in st.gpub) \/ HasValue(sh.el, ValOf(sh.el, r.st)) THEN @ \cup {p} ELSE @,
                                      !.gpub = @ \ {p},
+                                     !.kw = IF live THEN @ ELSE t,
                                      !.w = IF wr THEN t ELSE @, !.soft = IF r.sf THEN t ELSE @],
                    wr |-> wr, sf |-> r.sf]
          ELSE LET r == ApplyAt(ChSh(sh, p + 1), st.ch[p + 1], Tail(path), op, t)
@@ -277,11 +280,34 @@ OnP(e) ==
                     {"C04.delta_readable_after_its_cycle@consumer.capture_delta"})
             \cup (IF S.wt = e.t THEN CmpPW(Shape, e.o, S.w, v.cur, e.t, 0) ELSE {}))
 
+(* the key set of a dictionary (keys_ projection, probe 5): written exactly when a key is inserted or erased (an erase of an
+   absent key, a value tick, a clear of an empty dictionary do not write it; the first touch validates it); its added / removed
+   follow the dictionary's membership; keys without a value may or may not show in its value *)
+OnK(e) ==
+    LET v   == View(e)
+        cur == v.cur
+        o   == e.o
+        Em  == v.act /\ cur.kw = e.t
+        a   == ToSet(o.a)  r == ToSet(o.r)  val == ToSet(o.v)
+        T(c) == c \o "@consumer.keyset"
+        coh == IF Em THEN SetCoherence(v.pre.pub, cur.pub, a, r) ELSE ""
+    IN  IF Shape.k # "TSD" THEN Res(S, {})
+        ELSE Res(S,
+             If(o.m = 1 /\ ~Em, {T("C04.modified_true_without_write")})
+             \cup If(o.m = 0 /\ Em, {T("C04.modified_false_in_a_write_cycle")})
+             \cup If(o.ok = 1 /\ cur.kw = 0, {T("C04.valid_before_first_write")})
+             \cup If(o.ok = 0 /\ cur.kw > 0, {T("C04.invalid_although_written")})
+             \cup If(o.ok = 1 /\ cur.kw > 0 /\ o.lmt # cur.kw, {T("C04.last_modified_time_is_not_the_latest_write_cycle")})
+             \cup If(~Em /\ (a # {} \/ r # {} \/ o.dv # <<>> \/ e.cap # <<>>), {T("C04.delta_readable_after_its_cycle")})
+             \cup If(coh # "", {T(coh)})
+             \cup If(~(cur.pub \subseteq val /\ val \subseteq DOMAIN cur.ch), {T("C05.keys_are_not_the_net_effect_of_the_mutations")}))
+
 OnRet(e) == Res([S EXCEPT !.ended = TRUE], If(e.ok # 1, {"run_raised_an_exception"}))
 
 Step(e) == CASE e.e = "ops" -> OnOps(e)
              [] e.e = "w"   -> OnW(e)
              [] e.e = "p"   -> OnP(e)
+             [] e.e = "k"   -> OnK(e)
              [] e.e = "ret" -> OnRet(e)
              [] OTHER       -> Res(S, {})
 
